@@ -117,7 +117,7 @@ def frexp(x: fp.Float, ctx: fp.Context) -> tuple[fp.Float, fp.Float]:
         # how `x` is encoded, so `x` need not be normalized (which
         # requires `x` to carry a context)
         m = ctx.round(fp.RealFloat(s=x.s, e=0, c=x.c), exact=True)
-        e = ctx.round(x.e)
+        e = ctx.round(x.e, exact=True)
         return m, e
 
 ############################################################
